@@ -19,27 +19,30 @@ import (
 
 // rsCase is the serialisable form of a validated-run case.
 type rsCase struct {
-	Rules     []interface{}     `json:"rules"`
-	Text      string            `json:"text"`
-	Texts     []string          `json:"resources,omitempty"`
-	SoloTexts map[string]string `json:"solo_texts"`
-	Init      *facts.State      `json:"init"`
-	MaxCycle  uint64            `json:"max_cycle"`
-	ErrOnFail bool              `json:"err_on_fail"`
-	ViaGRB    bool              `json:"via_grb"`
-	Listeners int               `json:"listeners"`
-	FailAt    int               `json:"probe_fail_at,omitempty"`
-	FailMode  int               `json:"probe_fail_mode,omitempty"`
-	Order     []string          `json:"observed_first_cycle_order,omitempty"`
-	PriorInit *facts.State      `json:"earlier_call_facts,omitempty"`
-	PriorMax  uint64            `json:"earlier_call_max_cycle,omitempty"`
-	PriorSame bool              `json:"earlier_call_on_same_data_context,omitempty"`
+	Rules      []interface{}     `json:"rules"`
+	Text       string            `json:"text"`
+	Texts      []string          `json:"resources,omitempty"`
+	SoloTexts  map[string]string `json:"solo_texts"`
+	Init       *facts.State      `json:"init"`
+	MaxCycle   uint64            `json:"max_cycle"`
+	ErrOnFail  bool              `json:"err_on_fail"`
+	ViaGRB     bool              `json:"via_grb"`
+	Listeners  int               `json:"listeners"`
+	FailAt     int               `json:"probe_fail_at,omitempty"`
+	FailMode   int               `json:"probe_fail_mode,omitempty"`
+	Order      []string          `json:"observed_first_cycle_order,omitempty"`
+	PriorInit  *facts.State      `json:"earlier_call_facts,omitempty"`
+	PriorMax   uint64            `json:"earlier_call_max_cycle,omitempty"`
+	PriorSame  bool              `json:"earlier_call_on_same_data_context,omitempty"`
+	PriorOther bool              `json:"earlier_call_on_another_instance,omitempty"`
+	Rejected   []string          `json:"rejected_resources_offered_in_between,omitempty"`
+	Batch      bool              `json:"built_through_the_batch_entry_point,omitempty"`
 }
 
 func toRSCase(c *val.Case) *rsCase {
 	return &rsCase{Rules: gast.EncodeRules(c.Rules), Text: c.Text, Texts: c.Texts, SoloTexts: c.SoloTexts, Init: c.Init, MaxCycle: c.MaxCycle,
 		ErrOnFail: c.ErrOnFail, ViaGRB: c.ViaGRB, Listeners: c.Listeners, FailAt: c.ProbeFailAt, FailMode: int(c.ProbeMode),
-		PriorInit: c.PriorInit, PriorMax: c.PriorMaxCycle, PriorSame: c.PriorSameDC}
+		PriorInit: c.PriorInit, PriorMax: c.PriorMaxCycle, PriorSame: c.PriorSameDC, PriorOther: c.PriorOtherInstance, Rejected: c.Rejected, Batch: c.Batch}
 }
 
 func fromRSCase(r *rsCase) (*val.Case, error) {
@@ -49,7 +52,7 @@ func fromRSCase(r *rsCase) (*val.Case, error) {
 	}
 	return &val.Case{Rules: rules, Text: r.Text, Texts: r.Texts, SoloTexts: r.SoloTexts, Init: r.Init, MaxCycle: r.MaxCycle, ErrOnFail: r.ErrOnFail,
 		ViaGRB: r.ViaGRB, Listeners: r.Listeners, ProbeFailAt: r.FailAt, ProbeMode: facts.FailMode(r.FailMode),
-		PriorInit: r.PriorInit, PriorMaxCycle: r.PriorMax, PriorSameDC: r.PriorSame}, nil
+		PriorInit: r.PriorInit, PriorMaxCycle: r.PriorMax, PriorSameDC: r.PriorSame, PriorOtherInstance: r.PriorOther, Rejected: r.Rejected, Batch: r.Batch}, nil
 }
 
 // rsGenCfg bundles the knobs of a validated-run property.
@@ -61,6 +64,9 @@ type rsGenCfg struct {
 	// JSONFront: a fifth of the rule sets reach the builder through the JSON front end (a JSON rule set whose
 	// when/then members are the raw GRL of the rules; description and salience stated or omitted as in the rule)
 	JSONFront bool
+	// Rejected: a fifth of the knowledge bases are offered, after their first resource, a resource that the
+	// builder has to reject and that is made of the rule set's own material
+	Rejected bool
 }
 
 func defaultMaxCycle(rt *rapid.T) uint64 {
@@ -75,6 +81,7 @@ func genRSCase(rt *rapid.T, cfg rsGenCfg) (*val.Case, *gen.RuleSet) {
 	order := rapid.Permutation(indexes(len(rs.Rules))).Draw(rt, "rule_order")
 	var b strings.Builder
 	var parts []string
+	firstCut := 0
 	// literal selectors may be spelled in any notation unless a Forget/Changed call names a variable with a selector
 	selLits := !forgetNamesSelector(rs.Rules)
 	for _, i := range order {
@@ -94,6 +101,7 @@ func genRSCase(rt *rapid.T, cfg rsGenCfg) (*val.Case, *gen.RuleSet) {
 	// base is usually assembled that way; the working memory is re-indexed after every resource)
 	if len(parts) >= 2 && rapid.Bool().Draw(rt, "several_resources") {
 		cut := rapid.IntRange(1, len(parts)-1).Draw(rt, "resource_cut")
+		firstCut = cut
 		c.Texts = []string{strings.Join(parts[:cut], ""), strings.Join(parts[cut:], "")}
 		if len(parts)-cut >= 2 && rapid.Bool().Draw(rt, "three_resources") {
 			cut2 := rapid.IntRange(cut+1, len(parts)-1).Draw(rt, "resource_cut2")
@@ -129,6 +137,22 @@ func genRSCase(rt *rapid.T, cfg rsGenCfg) (*val.Case, *gen.RuleSet) {
 		}
 		c.Text, c.Texts = text, nil
 		rs.Feat["loaded_through_the_json_front_end"]++
+	}
+	if cfg.Rejected && rapid.IntRange(0, 4).Draw(rt, "rejected_resource") == 0 {
+		// (made of rules of the first resource: that is the one the knowledge base holds at that moment)
+		first := rs.Rules
+		if len(c.Texts) > 0 {
+			first = nil
+			for _, i := range order[:firstCut] {
+				first = append(first, rs.Rules[i])
+			}
+		}
+		c.Rejected = []string{rejectedResource(rt, first)}
+		rs.Feat["rejected_resource_offered_in_between"]++
+	}
+	if (len(c.Texts) > 0 || len(c.Rejected) > 0) && rapid.Bool().Draw(rt, "batch_entry_point") {
+		c.Batch = true
+		rs.Feat["built_through_the_batch_entry_point"]++
 	}
 	for _, r := range rs.Rules {
 		c.SoloTexts[r.Name] = gast.RuleString(r)
@@ -174,8 +198,39 @@ func maybeUsedBefore(rt *rapid.T, c *val.Case, rs *gen.RuleSet, cfg gen.StateCfg
 		// the earlier call ran on the very data context of the validated call (callers do that)
 		c.PriorSameDC = true
 		rs.Feat["earlier_call_on_the_same_data_context"]++
+		if rapid.Bool().Draw(rt, "earlier_call_other_instance") {
+			// ... made with another instance of the knowledge base
+			c.PriorOtherInstance = true
+			rs.Feat["earlier_call_on_the_same_data_context_with_another_instance"]++
+		}
 	}
 	return true
+}
+
+// rejectedResource renders a resource the builder must reject, made of the rule set's own material: a copy
+// of one of its rules under a new name, followed by what makes the whole resource unacceptable.
+func rejectedResource(rt *rapid.T, rules []*gast.Rule) string {
+	src := rules[rapid.IntRange(0, len(rules)-1).Draw(rt, "rejected_source")]
+	cp := &gast.Rule{Name: "ZRejected", When: gast.Clone(src.When), Then: cloneStmts(src.Then), Salience: src.Salience}
+	text := gast.RuleString(cp) + "\n"
+	switch rapid.IntRange(0, 3).Draw(rt, "rejected_kind") {
+	case 0:
+		return text + "rule ZBroken { when " + gast.ExprString(src.When) + " > then }\n"
+	case 1:
+		// a rule name that already exists
+		return text + gast.RuleString(src) + "\n"
+	case 2:
+		return text + "rule ZBadLiteral { when " + gast.ExprString(src.When) + " && 99999999999999999999 > 1 then Retract(\"ZBadLiteral\"); }\n"
+	default:
+		return "rule ZBroken2 { when true then " + gast.StmtString(firstStmt(src)) + " }} " + text
+	}
+}
+
+func firstStmt(r *gast.Rule) gast.Stmt {
+	if len(r.Then) > 0 {
+		return r.Then[0]
+	}
+	return &gast.CallStmt{X: &gast.Call{Name: "Complete"}}
 }
 
 func forgetNamesSelector(rules []*gast.Rule) bool {
